@@ -192,6 +192,7 @@ def run_config(cfg, res):
         start = w.prefix
         snap = None
         created = []
+        deleted_defaults = {}
         for life in range(cfg["restarts"] + 1):
             if life > 0:
                 w.restart()
@@ -205,14 +206,28 @@ def run_config(cfg, res):
             wk.wellknown(life)
             need_defaults = mode in ("defaults", "none")
             if need_defaults:
-                if not d["calendars"]:
+                if not d["calendars"] and "calendars" not in deleted_defaults.values():
                     wk.viol(f"{wk.sigbase()}/no-calendar-reachable", f"[{wk.shape()} life {life}] discovery reaches no calendar collection; homes {d['homes']!r}")
-                if not d["addressbooks"]:
+                if not d["addressbooks"] and "addressbooks" not in deleted_defaults.values():
                     wk.viol(f"{wk.sigbase()}/no-addressbook-reachable", f"[{wk.shape()} life {life}] discovery reaches no address book collection; homes {d['homes']!r}")
             for t in created:
                 if t not in d["calendars"] and t not in d["addressbooks"]:
                     wk.viol(f"{wk.sigbase()}/user-created-collection-not-reachable", f"[{wk.shape()} life {life}] {t} (created by the user in an earlier life) is not reached by discovery")
             cur = wk.snapshot(d)
+            # a default collection the user deleted in an earlier life may be created afresh by
+            # --defaults (it is not existing data); if it is there again it must be of its kind
+            for t, key in list(deleted_defaults.items()):
+                rsx, sx = wk.propfind(t, [X.P_RESOURCETYPE])
+                res.count("deleted_default_probes")
+                if rsx and rsx[0].status != 404 and sx.status == 207:
+                    res.count("deleted_default_recreated")
+                    rtx = X.resourcetypes(rsx[0]) or []
+                    if t not in d[key]:
+                        wk.viol(f"{wk.sigbase()}/default-collection-recreated-with-wrong-resourcetype/{key}",
+                                f"[{wk.shape()} life {life}] the user deleted the default collection {t}; after the restart it exists again with resourcetype {rtx!r}, not a member of {key}")
+                    if snap is not None and t in cur:
+                        snap[t] = cur[t]
+                    del deleted_defaults[t]
             if snap is not None:
                 wk.compare(snap, cur, life)
             res.seen(cfg["fe"], cfg["mode"], cfg["prefix"], cfg["principal"], life, len(d["calendars"]), len(d["addressbooks"]))
@@ -239,6 +254,18 @@ def run_config(cfg, res):
                 tok = w.new_token()
                 wk.req("PUT", t + "c-%d-%s.vcf" % (life, tok), [("Content-Type", "text/vcard")], gen.vcard(rng, "c18-" + tok, tok, rich=False))
                 wk.req("PROPPATCH", t, [X.XML_CT], X.proppatch(sets=[(X.P_ABDESC, "described in life %d" % life)]))
+            if cfg.get("delete_default") and life == 0 and cfg["restarts"] >= 1:
+                key = cfg["delete_default"]
+                base_name = {"calendars": "calendar", "addressbooks": "addressbook"}[key]
+                for t in list(d2[key]):
+                    if t.rstrip("/").rsplit("/", 1)[-1] == base_name and len(d2["calendars"]) and len(d2["addressbooks"]):
+                        sdel, _ = wk.req("DELETE", t)
+                        if W.World.success(sdel.status):
+                            deleted_defaults[t] = key
+                            res.count("default_collections_deleted_by_user")
+                d2 = wk.discover(start, life)
+                if d2 is None:
+                    return
             snap = wk.snapshot(d2)
             res.count("user_writes", sum(len(v["members"]) for v in snap.values()))
         if res.evaluations <= cfg["restarts"] + 1:
@@ -263,7 +290,8 @@ def run_shard(args):
 def all_configs(seed):
     out = []
     for fe, mode, prefix, principal, restarts in itertools.product(FES, MODES, PREFIXES, PRINCIPALS, RESTARTS):
-        out.append({"fe": fe, "mode": mode, "prefix": prefix, "principal": principal, "restarts": restarts, "seed": seed * 1000 + len(out)})
+        out.append({"fe": fe, "mode": mode, "prefix": prefix, "principal": principal, "restarts": restarts, "seed": seed * 1000 + len(out),
+                    "delete_default": [None, "calendars", "addressbooks"][len(out) % 3] if restarts >= 1 else None})
     return out
 
 
@@ -276,7 +304,8 @@ def check(tier, seed, t0):
         for fe in FES:
             for mode in MODES:
                 for k in range(4):
-                    picked.append({"fe": fe, "mode": mode, "prefix": PREFIXES[(k + len(picked)) % 3], "principal": PRINCIPALS[k], "restarts": [1, 0, 3, 1][k], "seed": seed * 1000 + len(picked)})
+                    picked.append({"fe": fe, "mode": mode, "prefix": PREFIXES[(k + len(picked)) % 3], "principal": PRINCIPALS[k], "restarts": [1, 0, 3, 1][k], "seed": seed * 1000 + len(picked),
+                                   "delete_default": [("addressbooks" if mode != "autocreate" else None), None, "calendars", None][k]})
         cfgs = picked
     n = 16
     shards = [{"configs": cfgs[i::n]} for i in range(n) if cfgs[i::n]]
@@ -285,7 +314,8 @@ def check(tier, seed, t0):
     c = merged["counters"]
     guards = [("discovery walks", c.get("walks", 0), 40 if tier == "quick" else 400), ("well-known walks", c.get("wellknown_walks_ok", 0) + 0, 50 if tier == "quick" else 500),
               ("restarts", c.get("restarts", 0), 20 if tier == "quick" else 250), ("collections compared across restarts", c.get("collections_compared", 0), 40 if tier == "quick" else 500),
-              ("members compared across restarts", c.get("members_compared", 0), 40 if tier == "quick" else 500)]
+              ("members compared across restarts", c.get("members_compared", 0), 40 if tier == "quick" else 500),
+              ("default collections deleted by the user and re-created by a --defaults restart", c.get("deleted_default_recreated", 0), 2 if tier == "quick" else 8)]
     return common.finish(PROP, tier, seed, "exploration", merged, failures, RULE + f"; {len(cfgs)} configurations this run", t0, guards=guards,
                          assumptions=["a mounted WSGI deployment strips the mount prefix into SCRIPT_NAME (vf/wsgihost.py)", "the client follows 3xx Location of /.well-known/*"],
                          exhaustive=(tier == "thorough"))
